@@ -1,6 +1,220 @@
-(** C03 -- placeholder while the proofs are being written. *)
-From Coq Require Import List.
-Require Import Fggs.Model.Semiring Fggs.Model.SumProduct Fggs.Model.Dual.
-Theorem C03_placeholder : forall R (o : sr_ops R), zero (dual_ops o) = (zero o, zero o).
-Proof. reflexivity. Qed.
-Print Assumptions C03_placeholder.
+(** C03 -- gradients of the sum-product are the true derivatives.
+    Only property theorems live here, each closed by [exact] and followed by Print Assumptions.
+    Everything is generic in the semiring: [forall R (o : sr_ops R), sr_ring o -> ...].
+    The derivative is defined by running the SAME definitions over the dual numbers
+    [dual_ops o : sr_ops (R * R)] (Model/Dual.v). *)
+From Coq Require Import List Arith Bool PeanoNat.
+Import ListNotations.
+Require Import Fggs.Model.Semiring Fggs.Model.SCC Fggs.Model.SumProduct Fggs.Model.SumProductCheck
+               Fggs.Model.Kleene Fggs.Model.Dual.
+Require Import Fggs.Proofs.BigSum Fggs.Proofs.SP_trees Fggs.Proofs.SP_nonrec Fggs.Proofs.SP_driver
+               Fggs.Proofs.SP_examples
+               Fggs.Proofs.Dual_ring Fggs.Proofs.Dual_leibniz Fggs.Proofs.Dual_trees Fggs.Proofs.Dual_J
+               Fggs.Proofs.Dual_vjp Fggs.Proofs.Dual_encl Fggs.Proofs.Dual_examples.
+
+(** * 1. The dual numbers *)
+Theorem C03_dual_is_semiring :
+  forall R (o : sr_ops R), sr_ring o -> sr_ring (dual_ops o).
+Proof. exact (fun R o => @dual_ring R o). Qed.
+Print Assumptions C03_dual_is_semiring.
+
+Theorem C03_dual_is_ordered :
+  forall R (o : sr_ops R), sr_ordered o -> sr_ordered (dual_ops o).
+Proof. exact (fun R o => @dual_ordered R o). Qed.
+Print Assumptions C03_dual_is_ordered.
+
+(** star (a + a' eps) = a* + a* a' a* eps is the least solution of y = 1 + x y over the duals *)
+Theorem C03_dual_is_star_semiring :
+  forall R (o : sr_ops R), sr_ring o -> sr_ordered o -> sr_star o -> sr_star (dual_ops o).
+Proof. exact (fun R o => @dual_star R o). Qed.
+Print Assumptions C03_dual_is_star_semiring.
+
+(** Leibniz: the epsilon part of a product is the sum, over the factors, of the epsilon part of
+    that factor times the product of the value parts of the OTHER factors *)
+Theorem C03_leibniz_product :
+  forall R (o : sr_ops R), sr_ring o ->
+  forall A (l : list A) (f : A -> R * R),
+    fst (prodS (dual_ops o) l f) = prodS o l (fun x => fst (f x))
+    /\ snd (prodS (dual_ops o) l f)
+       = sumS o (splits l) (fun s => mul o (snd (f (snd (fst s)))) (prodS o (fst (fst s) ++ snd s) (fun x => fst (f x)))).
+Proof.
+  exact (fun R o H A l f =>
+           conj (fst_prodS o l f)
+                (eq_trans (snd_prodS o H l f) (leib_splits o H l (fun x => fst (f x)) (fun x => snd (f x))))).
+Qed.
+Print Assumptions C03_leibniz_product.
+
+Theorem C03_splits_spec :
+  forall A (l : list A) s, In s (splits l) -> l = fst (fst s) ++ snd (fst s) :: snd s.
+Proof. exact (fun A => @splits_spec A). Qed.
+Print Assumptions C03_splits_spec.
+
+(** * 2. The dual Kleene iterates: value = ordinary iterate, epsilon part = formal derivative *)
+(** projection is a homomorphism; the epsilon part obeys the linearised recurrence
+    eps Z_{k+1} = J(Z_k) . eps Z_k + (dF/dw)(Z_k) . eps w, where [dstep G e de X xi] is the
+    derivative of the sum of X's rule values at the point e in the direction de: the sum over
+    rules, assignments and EDGES of de(edge) * product of e over the other edges *)
+Theorem C03_dual_is_derivative :
+  forall R (o : sr_ops R), sr_ring o ->
+  forall G (W : env (R:=R * R)) k X xi,
+    fst (Zk (dual_ops o) G W k X xi) = Zk o G (penv W) k X xi
+    /\ (is_term G X = false ->
+        let e := env_k G (penv W) (Zk o G (penv W) k) in
+        snd (Zk (dual_ops o) G W (S k) X xi)
+        = add o (dstep o G e (only_nt o G (eenv (Zk (dual_ops o) G W k))) X xi)
+                (dstep o G e (only_t o G (eenv W)) X xi)).
+Proof.
+  exact (fun R o H G W k X xi => conj (fst_Zk o G W k X xi) (snd_Zk_S_split o H G W k X xi)).
+Qed.
+Print Assumptions C03_dual_is_derivative.
+
+Theorem C03_grad_model_value_part :
+  forall R (o : sr_ops R), sr_ring o ->
+  forall G (w d : env (R:=R)) k X xi, fst (Zk (dual_ops o) G (denv w d) k X xi) = Zk o G w k X xi.
+Proof. exact (fun R o _ => @fst_Zk_denv R o). Qed.
+Print Assumptions C03_grad_model_value_part.
+
+(** one application of the equations over the duals *)
+Theorem C03_dual_step :
+  forall R (o : sr_ops R), sr_ring o ->
+  forall G (W Y : env (R:=R * R)) X xi, is_term G X = false ->
+    fst (step (dual_ops o) G W Y X xi) = step o G (penv W) (penv Y) X xi
+    /\ snd (step (dual_ops o) G W Y X xi)
+       = dstep o G (env_k G (penv W) (penv Y)) (env_k G (eenv W) (eenv Y)) X xi.
+Proof.
+  exact (fun R o H G W Y X xi HX => conj (fst_step o G W Y X xi) (snd_step o H G W Y X xi HX)).
+Qed.
+Print Assumptions C03_dual_step.
+
+(** * 3. The code's J is the formal Jacobian *)
+(** multi_mv (J, J_inputs) (dx, dw) at the point (x, w) = epsilon part of F over the duals at
+    (x + eps dx, w + eps dw): every rule shape is covered (edges sharing a label, repeated
+    attachments, isolated nodes, duplicated externals -- inherited from C01's [spe] theorem) *)
+Theorem C03_J_is_formal_derivative :
+  forall R (o : sr_ops R), sr_ring o ->
+  forall G, wf_grammar G = true ->
+  forall comp (w x dw dx : env (R:=R)) n xi,
+    NoDup comp -> In n comp -> is_term G n = false -> In xi (all_assts (lshape G n)) ->
+    J_mv o G (J_contribs o G comp (fun l => Some (env_k G w x l)) true) (env_k G dw dx) n xi
+    = snd (step (dual_ops o) G (denv w dw) (denv x dx) n xi).
+Proof. exact (fun R o H => @J_is_formal_derivative R o H). Qed.
+Print Assumptions C03_J_is_formal_derivative.
+
+(** the same for the partial environments the code works with (a label without value counts as
+    zero), with or without J_inputs *)
+Theorem C03_J_partial_env :
+  forall R (o : sr_ops R), sr_ring o ->
+  forall G, wf_grammar G = true ->
+  forall comp (e : nat -> option (list nat -> R)) (de : env (R:=R)) wi n xi,
+    NoDup comp -> In n comp -> In xi (all_assts (lshape G n)) ->
+    J_mv o G (J_contribs o G comp e wi) de n xi
+    = dstep o G (oenv o e) (fun l i => if wi || mem comp l then de l i else zero o) n xi.
+Proof. exact (fun R o H => @J_mv_is_dstep R o H). Qed.
+Print Assumptions C03_J_partial_env.
+
+(** Jx = directions supported on the component's nonterminals; J_inputs = directions supported
+    on the inputs (terminal weights and earlier nonterminals) *)
+Theorem C03_Jx_and_J_inputs :
+  forall R (o : sr_ops R), sr_ring o ->
+  forall G, wf_grammar G = true ->
+  forall comp (e : nat -> option (list nat -> R)) (de : env (R:=R)) n xi,
+    NoDup comp -> In n comp -> In xi (all_assts (lshape G n)) ->
+    J_mv o G (Jx_of comp (J_contribs o G comp e true)) de n xi
+    = dstep o G (oenv o e) (fun l i => if mem comp l then de l i else zero o) n xi
+    /\ J_mv o G (Jin_of comp (J_contribs o G comp e true)) de n xi
+       = dstep o G (oenv o e) (fun l i => if mem comp l then zero o else de l i) n xi.
+Proof.
+  exact (fun R o H G Hwf comp e de n xi Hnd Hn Hxi =>
+           conj (Jx_is_derivative o H G Hwf comp e de true n xi Hnd Hn Hxi)
+                (Jin_is_derivative o H G Hwf comp e de n xi Hnd Hn Hxi)).
+Qed.
+Print Assumptions C03_Jx_and_J_inputs.
+
+(** * 4. The backward pass of a component evaluated in one step is the vector-Jacobian product *)
+Theorem C03_scc_vjp_onestep :
+  forall R (o : sr_ops R), sr_ring o ->
+  forall G, wf_grammar G = true ->
+  forall (all : tmt (R:=R)) X (g : env (R:=R)) l yi,
+    (forall r ed, In r (rules_of G X) -> In ed (r_edges r) -> fst ed <> X) ->
+    l <> X -> In yi (all_assts (lshape G l)) ->
+    backward_onestep o G all X g l yi
+    = sumS o (all_assts (lshape G X))
+           (fun xi => mul o (g X xi) (dstep o G (env_of o all) (delta_env o l yi) X xi)).
+Proof. exact (fun R o H => @vjp_onestep R o H). Qed.
+Print Assumptions C03_scc_vjp_onestep.
+
+(** * 5. Derivation trees *)
+(** the epsilon part of the k-th dual iterate = sum over the derivation trees of depth <= k and
+    over each occurrence of the weight entry among the tree's leaves of the product of the
+    remaining weights *)
+Theorem C03_tree_derivative :
+  forall R (o : sr_ops R), sr_ring o ->
+  forall G (w : env (R:=R)) l0 i0 k X xi, is_term G X = false ->
+    grad_model o G w l0 i0 k X xi
+    = sumS o (enum_trees G k X xi)
+           (fun t => sumS o (occurrences (l0, i0) (leaves G t))
+                          (fun s => prodS o (fst (fst s) ++ snd s) (wt w))).
+Proof. exact (fun R o H => @tree_derivative_entry R o H). Qed.
+Print Assumptions C03_tree_derivative.
+
+(** general direction d: the sum over trees of the Leibniz sum over the tree's leaves *)
+Theorem C03_tree_derivative_direction :
+  forall R (o : sr_ops R), sr_ring o ->
+  forall G (w d : env (R:=R)) k X xi, is_term G X = false ->
+    snd (Zk (dual_ops o) G (denv w d) k X xi) = sumS o (enum_trees G k X xi) (dweight o G w d).
+Proof. exact (fun R o H => @tree_derivative R o H). Qed.
+Print Assumptions C03_tree_derivative_direction.
+
+Theorem C03_weight_is_product_of_leaves :
+  forall R (o : sr_ops R), sr_ring o ->
+  forall G (w : env (R:=R)) t, weight o G w t = prodS o (leaves G t) (wt w).
+Proof. exact (fun R o H => @weight_leaves R o H). Qed.
+Print Assumptions C03_weight_is_product_of_leaves.
+
+(** w * dZ/dw = sum over trees of (number of uses of the entry in the tree) * weight(tree):
+    divided by Z this is the expected number of uses of the factor entry *)
+Theorem C03_expected_count_numerator :
+  forall R (o : sr_ops R), sr_ring o ->
+  forall G (w : env (R:=R)) l0 i0 k X xi, is_term G X = false ->
+    mul o (w l0 i0) (grad_model o G w l0 i0 k X xi)
+    = sumS o (enum_trees G k X xi)
+           (fun t => mul o (from_nat o (length (filter (fun p => key_eqb p (l0, i0)) (leaves G t)))) (weight o G w t)).
+Proof.
+  exact (fun R o H G w l0 i0 k X xi HX =>
+           eq_trans (expected_count_numerator o H G w l0 i0 k X xi HX)
+                    (sumS_ext o _ _ _ (fun t _ => f_equal (fun n => mul o (from_nat o n) (weight o G w t))
+                                                          (occurrences_count (l0, i0) (leaves G t))))).
+Qed.
+Print Assumptions C03_expected_count_numerator.
+
+(** * 6. Recursive grammars: certified enclosure at any ordered carrier (hence at the duals) *)
+Theorem C03_encl2_sound :
+  forall R (o : sr_ops R), sr_ring o -> sr_ordered o ->
+  forall (rd ru infl : R -> R) (leb close : R -> R -> bool),
+    (forall x, le o (rd x) x) -> (forall x, le o x (ru x)) -> (forall a b, leb a b = true -> le o a b) ->
+  forall G, wf_grammar G = true ->
+  forall (w : env (R:=R)) rounds lo v,
+    encl2 o rd ru infl leb close G w rounds = Some (lo, v) ->
+    exists K, forall k, K <= k -> forall X xi, is_term G X = false -> In xi (all_assts (lshape G X)) ->
+      le o (env_of o lo X xi) (Zk o G w k X xi) /\ le o (Zk o G w k X xi) (env_of o v X xi).
+Proof. exact (fun R o Hr Ho rd ru infl leb close H1 H2 H3 G Hwf w => @encl2_sound R o Hr Ho rd ru infl leb close H1 H2 H3 G Hwf w). Qed.
+Print Assumptions C03_encl2_sound.
+
+Theorem C03_kleene_chain :
+  forall R (o : sr_ops R), sr_ring o -> sr_ordered o ->
+  forall G, wf_grammar G = true ->
+  forall (w : env (R:=R)) j k, j <= k -> env_le o G (Zk o G w j) (Zk o G w k).
+Proof. exact (fun R o Hr Ho G Hwf w => @Zk_mono R o Hr Ho G Hwf w). Qed.
+Print Assumptions C03_kleene_chain.
+
+(** * 7. The hypotheses are satisfiable: the natural numbers, a concrete grammar *)
+Theorem C03_example_semiring : sr_ring nat_ops_example /\ sr_ordered nat_ops_example /\ wf_grammar G_ex = true.
+Proof. exact (conj nat_ring_example (conj nat_ordered_example G_ex_wf)). Qed.
+Print Assumptions C03_example_semiring.
+
+Theorem C03_example_gradient :
+  grad_model nat_ops_example G_ex W_nat 0 [1; 2] 3 2 [] = 3
+  /\ map snd (match tmt_get (backward_nonrec nat_ops_example G_ex w_nat (map (fun x => [x]) ord_ex) [1]) 0 with
+              | Some t => t | None => [] end) = [3; 3; 3; 3; 3; 3].
+Proof. exact (conj grad_S_f12 backward_S_f). Qed.
+Print Assumptions C03_example_gradient.
